@@ -5,6 +5,7 @@ CONSTANTS
   Frag = FALSE
   HoldMutex = TRUE
   CloseC = TRUE
+  Tampers = 0
   Recheck = FALSE
 INIT Init
 NEXT Next
